@@ -313,7 +313,11 @@ def run(ctx):
         sa = [canon(x) for x in walk(body_of(s_str)) if x.get('kind') in ('BinaryOperator', 'CXXMemberCallExpr', 'ConditionalOperator')]
         sb = [canon(x) for x in walk(body_of(s_w)) if x.get('kind') in ('BinaryOperator', 'CXXMemberCallExpr', 'ConditionalOperator')]
         WSAME[0] = (sa == sb)
-        ctx.check(sa == sb, R, 'split|string==wstring', s_w, 'identical modulo character type', 'split(wstring) differs from split(string): %s' % [p for p in zip(sa, sb) if p[0] != p[1]][:2])
+        if sa != sb and split_decided[0]:
+            # the narrow overload's pieces are decided by evaluation (C08-R6) and the wide one keeps its own structural rules below
+            ctx.undecided(R, 'split|string==wstring', s_w, 'split(wstring) and split(string) are written differently (%s); split(string) is decided by evaluation (C08-R6), split(wstring) by the structural rules' % [p for p in zip(sa, sb) if p[0] != p[1]][:1])
+        else:
+            ctx.check(sa == sb, R, 'split|string==wstring', s_w, 'identical modulo character type', 'split(wstring) differs from split(string): %s' % [p for p in zip(sa, sb) if p[0] != p[1]][:2])
         for f, lab in ((s_str, 'split(string)'), (s_w, 'split(wstring)')):
             ctx.fn(lab)
             check_no_goto(f)
